@@ -342,11 +342,11 @@ def make_enforcer(rules, dflt=None, registered=(), enforce_scope=True, via='rule
         main = os.path.join(d, 'policy.json')
         with open(main, 'w') as f:
             _json.dump(rules, f)
-        saved = {o.name: o.default for o in opts._options}
+        saved = {o.name: (o.default, o._set_location) for o in opts._options}
 
         def restore(saved=saved):
             for o in opts._options:
-                o.default = saved[o.name]
+                o.default, o._set_location = saved[o.name]
         kwd = {'enforce_scope': bool(enforce_scope)}
         if dflt is not None and dflt[0] == 'opt':
             kwd['policy_default_rule'] = dflt[1]
@@ -413,14 +413,19 @@ def make_enforcer(rules, dflt=None, registered=(), enforce_scope=True, via='rule
     return e
 
 
+LAST_RAW = []
+
+
 def observe(fn):
     """Run one call of the real code; normalise the outcome to the spec's
     alphabet.  Any exception class outside the documented ones keeps its own
     name, which no spec action produces."""
     from oslo_policy import policy
     del PROBE_LOG[:]
+    del LAST_RAW[:]
     try:
         v = fn()
+        LAST_RAW[:] = [type(v).__name__]
         return {'o': 'ret', 'v': 1 if v else 0, 'cls': '', 'msg': ''}
     except CUSTOM_CLASSES as ex:
         return {'o': 'raise', 'v': 0, 'cls': 'Custom', 'msg': '', 'xargs': list(ex.args), 'xkw': sorted(ex.kw.items()),
